@@ -202,7 +202,7 @@ class TreeGen:
             fees += fee
         return txs, fees
 
-    def extend(self, parent, txs=None, fees=0, dt=None, reward_delta=0, miner=None):
+    def extend(self, parent, txs=None, fees=0, dt=None, reward_delta=0, miner=None, zero_outputs=(), strip_reward=False):
         rng = self.rng
         if txs is None:
             txs, fees = self.random_txs(parent)
@@ -212,6 +212,13 @@ class TreeGen:
             miner = MALFORMED_PK
         cb = coinbase(height, self.env.subsidy(height) + fees + reward_delta, miner or rng.choice(self.keys.pks),
                       data=bytes([rng.randrange(256) for _ in range(rng.choice([0, 3, 8]))]) + b'#%d' % len(self.nodes))
+        if strip_reward:
+            cb.outputs = []          # a reward transaction without outputs (the reward is simply not claimed)
+        if zero_outputs:
+            # a reward transaction may carry zero-valued outputs (only the SUM of a reward is bounded)
+            from skepticoin.datatypes import Output
+            from skepticoin.signing import SECP256k1PublicKey
+            cb.outputs = list(cb.outputs) + [Output(0, SECP256k1PublicKey(pk)) for pk in zero_outputs]
         blk = assemble(self.env, parent, [cb] + txs, ts)
         node = Node(blk, parent, spec.apply_block(parent.utxo, spec.BlockView(blk)))
         self.nodes.append(node)
